@@ -256,6 +256,7 @@ var specials = map[string]func() []finding{
 	"same-name-node-types":   sameNameLifecycles,
 	"same-name-slice-types":  sameNameSliceTypes,
 	"zero-value-node-lifecycle": zeroValueNodeLifecycle,
+	"or-default-on-absent-keys": orDefaultOnAbsentKeys,
 	"bind-store-aware-hooks": bindStoreAwareHooks,
 	"bind-cyclic-values":     bindCyclicValues,
 }
@@ -757,6 +758,62 @@ func zeroValueNodeLifecycle() (fs []finding) {
 			if got := fmt.Sprint(lifeCalls); err != nil || got != tc.want || (via == "run" && act != "done") {
 				fs = append(fs, finding{"zero-value-node-lifecycle:" + via, fmt.Sprintf("a value-type node %s (%s): callbacks %s, action %q, error %v; want %s, \"done\", nil — prep, exec and post are called for every node that is run", tc.name, via, got, act, err, tc.want)})
 			}
+		}
+	}
+	return fs
+}
+
+
+// orDefaultOnAbsentKeys: on a key that is not there the Or-variant hands back ITS default — every time, whatever
+// default an earlier call was given — and the plain / Must variants keep failing: an accessor never changes what a
+// later accessor sees.
+func orDefaultOnAbsentKeys() (fs []finding) {
+	add := func(key, f string, a ...any) { fs = append(fs, finding{key, fmt.Sprintf(f, a...)}) }
+	for _, pre := range []int{0, 3} {
+		s := flyt.NewSharedStore()
+		for i := 0; i < pre; i++ {
+			s.Set(fmt.Sprint("other", i), i)
+		}
+		d1, d2 := map[string]any{"d": 1}, map[string]any{"d": 2}
+		if got := s.GetMapOr("m", d1); fmt.Sprint(got) != fmt.Sprint(d1) {
+			add("or-default:map", "GetMapOr on an absent key returned %v, default was %v", got, d1)
+		}
+		if got := s.GetMapOr("m", d2); fmt.Sprint(got) != fmt.Sprint(d2) {
+			add("or-default-sticks:map", "GetMapOr(\"m\", %v) on a key nobody ever set returned %v — the default of an EARLIER GetMapOr call: the Or-variant returns its own default whenever the plain variant fails", d2, got)
+		}
+		if got := s.GetMap("m"); got != nil {
+			add("plain-after-or:map", "GetMap on a key nobody ever set returned %v after a GetMapOr call on that key", got)
+		}
+		s1, s2 := []any{"one"}, []any{"two", "three"}
+		_ = s.GetSliceOr("s", s1)
+		if got := s.GetSliceOr("s", s2); fmt.Sprint(got) != fmt.Sprint(s2) {
+			add("or-default-sticks:slice", "GetSliceOr(\"s\", %v) on a key nobody ever set returned %v", s2, got)
+		}
+		if got := s.GetSlice("s"); got != nil {
+			add("plain-after-or:slice", "GetSlice on a key nobody ever set returned %v after a GetSliceOr call on that key", got)
+		}
+		_ = s.GetStringOr("t", "one")
+		if got := s.GetStringOr("t", "two"); got != "two" || s.GetString("t") != "" {
+			add("or-default-sticks:string", "GetStringOr(\"t\", \"two\") on a key nobody ever set returned %q (GetString: %q)", got, s.GetString("t"))
+		}
+		_ = s.GetIntOr("i", 1)
+		if got := s.GetIntOr("i", 2); got != 2 || s.GetInt("i") != 0 {
+			add("or-default-sticks:int", "GetIntOr(\"i\", 2) on a key nobody ever set returned %d (GetInt: %d)", got, s.GetInt("i"))
+		}
+		_ = s.GetFloat64Or("f", 1.5)
+		if got := s.GetFloat64Or("f", 2.5); got != 2.5 || s.GetFloat64("f") != 0 {
+			add("or-default-sticks:float", "GetFloat64Or(\"f\", 2.5) on a key nobody ever set returned %v", got)
+		}
+		_ = s.GetBoolOr("b", true)
+		if got := s.GetBoolOr("b", false); got || s.GetBool("b") {
+			add("or-default-sticks:bool", "GetBoolOr(\"b\", false) on a key nobody ever set returned %v", got)
+		}
+		if s.Len() != pre {
+			add("accessor-changed-the-store", "after Or-default lookups of six absent keys the store holds %d entries, %d were set", s.Len(), pre)
+		}
+		var dst map[string]any
+		if err := s.Bind("m", &dst); err == nil {
+			add("bind-after-or:map", "Bind on a key nobody ever set succeeded after a GetMapOr call on that key")
 		}
 	}
 	return fs
